@@ -1,12 +1,1205 @@
-// Package c08 checks property C08 (not built yet).
+// Package c08 checks property C08: unnamed values are numbered exactly as
+// LLVM numbers them.
+//
+// (S) spec/Numbering.tla states LLVM's numbering as a count and the code's ID
+// assignment as a walk; spec/NumberingGen.tla lets TLC check their laws over
+// all function and module shapes (with ValidateOnPrint = TRUE, the code as
+// implemented, TLC reports the parse-then-print counterexample) and writes one
+// vector per shape; spec/IRState.tla contributes histories that start from a
+// parsed module.
+// (G) every vector is (a) built through the real API, printed, compared token
+// by token with the numbering of the specification and given to llvm-as; (b)
+// rendered as text with implicit, explicit and mixed numbering -- llvm-as must
+// accept it, else the vector is discarded as a spec/LLVM disagreement --,
+// parsed with asm.ParseString, every use checked to be pointer-equal to the
+// value at that number, printed again, numbered again.
+// (T) the ir.VerifHook "setid" events of the prints are recorded and judged by
+// TLC against spec/NumberingTrace.tla.
 package c08
 
 import (
+	"fmt"
+	"math/rand"
+	"path/filepath"
+	"regexp"
+	"sort"
+	"strconv"
+	"strings"
+	"time"
+
+	"github.com/llir/llvm/asm"
+	"github.com/llir/llvm/ir"
+	"github.com/llir/llvm/ir/constant"
+	"github.com/llir/llvm/ir/types"
+
+	"verif/harness/llvmoracle"
 	"verif/harness/mbt"
+	"verif/harness/props/irhist"
 	"verif/harness/props/reg"
 )
 
 func init() { reg.Register("C08", Run) }
 
+const (
+	sigParsePrint    = "C08|parse+print|panic|unnamed definitions textually out of print-group order"
+	sigParseEditLoc  = "C08|parse+edit+print|panic|cached local ID validated against position"
+	sigParseEditGlob = "C08|parse+edit+print|panic|cached global ID validated against position"
+)
+
+// --- recording of "setid" events (T) ------------------------------------------------
+
+type recItem struct {
+	Name   string `json:"name"`
+	Res    string `json:"res"`
+	Before int    `json:"before"`
+}
+type recEvent struct {
+	Pos int `json:"pos"`
+	Old int `json:"old"`
+	New int `json:"new"`
+}
+type record struct {
+	ID     int        `json:"id"`
+	What   string     `json:"what"`
+	Items  []recItem  `json:"items"`
+	Events []recEvent `json:"events"`
+	After  []int      `json:"after"`
+	desc   string
+}
+
+type checker struct {
+	rep      *mbt.Report
+	tier     string
+	rng      *rand.Rand
+	records  []record
+	recEvery int
+	recCount int
+	discards int
+	vectors  int
+	llvmRuns int
+	// llvm-as verdicts by text
+	accepted map[string]string // text -> "" (accepted) or diagnostic
+}
+
+func (c *checker) wantRecord() bool {
+	c.recCount++
+	return c.recEvery <= 1 || c.recCount%c.recEvery == 0
+}
+
+// accept asks llvm-as (cached).
+func (c *checker) accept(text string) (bool, string) {
+	if d, ok := c.accepted[text]; ok {
+		return d == "", d
+	}
+	ok, diag := llvmoracle.Accepts(text)
+	c.llvmRuns++
+	if ok {
+		diag = ""
+	} else if diag == "" {
+		diag = "rejected"
+	}
+	c.accepted[text] = diag
+	return ok, diag
+}
+
+// prefetch runs llvm-as on all texts in parallel and caches the verdicts.
+func (c *checker) prefetch(texts []string) {
+	var todo []string
+	seen := map[string]bool{}
+	for _, t := range texts {
+		if _, ok := c.accepted[t]; !ok && !seen[t] {
+			seen[t] = true
+			todo = append(todo, t)
+		}
+	}
+	res := make([]string, len(todo))
+	llvmoracle.Parallel(len(todo), func(i int) {
+		ok, diag := llvmoracle.Accepts(todo[i])
+		if !ok && diag == "" {
+			diag = "rejected"
+		}
+		if ok {
+			diag = ""
+		}
+		res[i] = diag
+	})
+	for i, t := range todo {
+		c.accepted[t] = res[i]
+	}
+	c.llvmRuns += len(todo)
+}
+
+var reNum = regexp.MustCompile(`[0-9]+`)
+
+func diagClass(d string) string {
+	if i := strings.Index(d, "error:"); i >= 0 {
+		d = d[i+6:]
+	}
+	if i := strings.IndexByte(d, '\n'); i >= 0 {
+		d = d[:i]
+	}
+	return strings.TrimSpace(reNum.ReplaceAllString(d, "N"))
+}
+
+// ===================================================================================
+// function shapes
+// ===================================================================================
+
+const batchSize = 250
+
+func (c *checker) funcVectors(vs []vector) {
+	for lo := 0; lo < len(vs); lo += batchSize {
+		hi := lo + batchSize
+		if hi > len(vs) {
+			hi = len(vs)
+		}
+		c.funcBatch(vs[lo:hi], lo)
+	}
+}
+
+func (c *checker) funcBatch(vs []vector, base int) {
+	rep := c.rep
+	plans := make([]*plan, len(vs))
+	for i, v := range vs {
+		plans[i] = makePlan("f"+strconv.Itoa(base+i), v)
+	}
+	texts := make([]string, 3)
+	for mode := 0; mode < 3; mode++ {
+		var sb strings.Builder
+		sb.WriteString(prelude)
+		for _, pl := range plans {
+			sb.WriteString(pl.render(mode))
+			sb.WriteString("\n")
+		}
+		texts[mode] = sb.String()
+	}
+	c.prefetch(texts)
+	// LLVM arbitrates the reference: the explicit rendering carries the numbers of the specification
+	alive := make([]bool, len(vs))
+	for i := range alive {
+		alive[i] = true
+	}
+	if ok, _ := c.accept(texts[modeExplicit]); !ok {
+		// find the shapes LLVM and the specification disagree on
+		for i, pl := range plans {
+			if ok, diag := c.accept(prelude + pl.render(modeExplicit)); !ok {
+				alive[i] = false
+				c.discards++
+				rep.Note("spec/LLVM disagreement (vector discarded): llvm-as rejects the explicit rendering of %s: %s", pl.describe, diagClass(diag))
+			}
+		}
+	}
+	refToks := make([][]string, len(plans))
+	for i, pl := range plans {
+		refToks[i] = tokens(pl.render(modeExplicit))
+	}
+	for _, v := range vs {
+		c.vectors++
+		rep.Count(v.key(), hasUnnamedAndNamedOrVoid(v))
+	}
+
+	// (a) build through the API, print
+	e := newEnv()
+	objs := make([]objects, len(plans))
+	funcs := make([]*ir.Func, len(plans))
+	for i, pl := range plans {
+		funcs[i], objs[i] = pl.build(e)
+	}
+	events := c.hookStart()
+	var printed string
+	msg, panicked := mbt.Guard(func() { printed = e.m.String() })
+	evs := c.hookStop(events)
+	if panicked {
+		rep.Fail(mbt.Failure{Signature: "C08|build+print|panic|" + irhist.PanicClass(msg),
+			What: "printing a module of freshly built functions panics: " + mbt.Truncate(msg, 200), Case: caseOf(vs, "build")})
+	} else {
+		per := splitFuncs(printed)
+		if ok, diag := c.accept(printed); !ok {
+			// blame single functions
+			blamed := false
+			for i, pl := range plans {
+				if !alive[i] {
+					continue
+				}
+				if ok1, d1 := c.accept(prelude + per[pl.fname]); !ok1 {
+					blamed = true
+					rep.Fail(mbt.Failure{Signature: "C08|build+print|llvm-as rejects|" + diagClass(d1),
+						What: fmt.Sprintf("llvm-as rejects the printed function built from %s: %s", pl.describe, diagClass(d1)),
+						Case: caseOf(vs[i:i+1], "build")})
+				}
+			}
+			if !blamed {
+				rep.Fail(mbt.Failure{Signature: "C08|build+print|llvm-as rejects|" + diagClass(diag),
+					What: "llvm-as rejects the printed batch module: " + diagClass(diag), Case: caseOf(vs, "build")})
+			}
+		}
+		for i, pl := range plans {
+			if !alive[i] {
+				continue
+			}
+			got := tokens(per[pl.fname])
+			if d := firstDiff(got, refToks[i]); d >= 0 {
+				rep.Fail(mbt.Failure{Signature: "C08|build+print|numbering|" + c.blame(pl, refToks[i], got, d),
+					What: fmt.Sprintf("built %s prints identifiers %v, LLVM numbering is %v", pl.describe, got, refToks[i]),
+					Case: caseOf(vs[i:i+1], "build")})
+				continue
+			}
+			if c.wantRecord() {
+				c.recordFunc(pl, objs[i], nil, evs, "build "+pl.describe)
+			}
+			// numbering again changes nothing
+			c.reassign(pl, funcs[i], objs[i], "build", vs[i])
+		}
+	}
+
+	// (b) text in three numbering modes -> llvm-as -> parser
+	for mode := 0; mode < 3; mode++ {
+		if ok, diag := c.accept(texts[mode]); !ok {
+			if mode != modeExplicit {
+				// the implicit forms must be valid whenever the explicit one is
+				bad := 0
+				for i, pl := range plans {
+					if alive[i] {
+						if ok1, _ := c.accept(prelude + pl.render(mode)); !ok1 {
+							bad++
+							c.discards++
+						}
+					}
+				}
+				rep.Note("llvm-as rejects the %s rendering of %d shapes of a batch (%s): discarded", modeNames[mode], bad, diagClass(diag))
+			}
+			continue
+		}
+		m, err := asm.ParseString("batch.ll", texts[mode])
+		if err != nil {
+			// find the shapes the parser rejects
+			found := false
+			for i, pl := range plans {
+				if !alive[i] {
+					continue
+				}
+				if _, e1 := asm.ParseString("one.ll", prelude+pl.render(mode)); e1 != nil {
+					found = true
+					rep.Fail(mbt.Failure{Signature: "C08|parse|rejected|" + modeNames[mode] + " numbering: " + irhist.PanicClass(e1.Error()),
+						What: fmt.Sprintf("asm.ParseString rejects the %s rendering (accepted by llvm-as) of %s: %v", modeNames[mode], pl.describe, mbt.Truncate(e1.Error(), 200)),
+						Case: caseOfText(vs[i:i+1], "parse", prelude+pl.render(mode))})
+				}
+			}
+			if !found {
+				rep.Fail(mbt.Failure{Signature: "C08|parse|rejected|batch: " + irhist.PanicClass(err.Error()),
+					What: "asm.ParseString rejects a batch llvm-as accepts: " + mbt.Truncate(err.Error(), 200), Case: caseOfText(vs, "parse", texts[mode])})
+			}
+			continue
+		}
+		byName := map[string]*ir.Func{}
+		for _, f := range m.Funcs {
+			byName[f.GlobalName] = f
+		}
+		pobjs := make([]objects, len(plans))
+		okPlan := make([]bool, len(plans))
+		for i, pl := range plans {
+			if !alive[i] {
+				continue
+			}
+			f := byName[pl.fname]
+			if f == nil {
+				rep.Fail(mbt.Failure{Signature: "C08|parse|structure|function missing", What: "parsed module lacks " + pl.fname, Case: caseOf(vs[i:i+1], "parse")})
+				continue
+			}
+			obj, err := pl.locate(f)
+			if err != nil {
+				rep.Fail(mbt.Failure{Signature: "C08|parse|structure|" + modeNames[mode] + " numbering",
+					What: fmt.Sprintf("parsed %s rendering of %s has another structure: %v", modeNames[mode], pl.describe, err), Case: caseOfText(vs[i:i+1], "parse", prelude+pl.render(mode))})
+				continue
+			}
+			pobjs[i] = obj
+			okPlan[i] = true
+			if kind, detail := pl.checkBinding(obj); kind != "" {
+				rep.Fail(mbt.Failure{Signature: "C08|parse|binding|use of " + kind + ", " + modeNames[mode] + " numbering",
+					What: fmt.Sprintf("%s rendering of %s: %s", modeNames[mode], pl.describe, detail), Case: caseOfText(vs[i:i+1], "parse", prelude+pl.render(mode))})
+			}
+			// the parser's own numbering of the unnamed values
+			ids := pl.ids(obj)
+			for k, it := range pl.flat {
+				if it.num >= 0 && ids[k] != it.num {
+					rep.Fail(mbt.Failure{Signature: "C08|parse|numbering|" + it.describeKind() + ", " + modeNames[mode] + " numbering",
+						What: fmt.Sprintf("%s rendering of %s: the parser numbers the %s at walk position %d %%%d, LLVM %%%d", modeNames[mode], pl.describe, it.describeKind(), it.pos, ids[k], it.num),
+						Case: caseOfText(vs[i:i+1], "parse", prelude+pl.render(mode))})
+					break
+				}
+			}
+		}
+		// printing never fails on a module the parser produced
+		before := make([][]int, len(plans))
+		for i, pl := range plans {
+			if okPlan[i] {
+				before[i] = pl.ids(pobjs[i])
+			}
+		}
+		events := c.hookStart()
+		var out string
+		msg, panicked := mbt.Guard(func() { out = m.String() })
+		evs := c.hookStop(events)
+		if panicked {
+			rep.Fail(mbt.Failure{Signature: "C08|parse+print|panic|function, " + irhist.PanicClass(msg),
+				What: "printing a parsed module panics: " + mbt.Truncate(msg, 200), Case: caseOfText(vs, "parse", texts[mode])})
+			continue
+		}
+		per := splitFuncs(out)
+		for i, pl := range plans {
+			if !okPlan[i] {
+				continue
+			}
+			got := tokens(per[pl.fname])
+			if d := firstDiff(got, refToks[i]); d >= 0 {
+				rep.Fail(mbt.Failure{Signature: "C08|parse+print|numbering|" + c.blame(pl, refToks[i], got, d),
+					What: fmt.Sprintf("%s rendering of %s prints identifiers %v after parsing, LLVM numbering is %v", modeNames[mode], pl.describe, got, refToks[i]),
+					Case: caseOfText(vs[i:i+1], "parse", prelude+pl.render(mode))})
+				continue
+			}
+			if c.wantRecord() {
+				c.recordFunc(pl, pobjs[i], before[i], evs, "parse("+modeNames[mode]+") "+pl.describe)
+			}
+			c.reassign(pl, byName[pl.fname], pobjs[i], "parse", vs[i])
+		}
+		if mode == modeImplicit {
+			if ok, diag := c.accept(out); !ok {
+				rep.Fail(mbt.Failure{Signature: "C08|parse+print|llvm-as rejects|" + diagClass(diag),
+					What: "llvm-as rejects the text printed for a parsed batch: " + diagClass(diag), Case: caseOfText(vs, "parse", texts[mode])})
+			}
+		}
+	}
+	if base == 0 && len(vs) > 0 {
+		rep.Sample(map[string]interface{}{"kind": "func", "shape": vs[len(vs)/2].key(), "llvm_numbering": vs[len(vs)/2].Ids,
+			"explicit_text": plans[len(vs)/2].render(modeExplicit)})
+	}
+}
+
+func hasUnnamedAndNamedOrVoid(v vector) bool {
+	un, other := false, false
+	for _, id := range v.Ids {
+		if id >= 0 {
+			un = true
+		} else {
+			other = true
+		}
+	}
+	for i, id := range v.Textual {
+		if id >= 0 && v.Printed[i] != id {
+			return true
+		}
+	}
+	return un && other
+}
+
+// blame names the definition at which the printed identifiers first leave LLVM's numbering.
+func (c *checker) blame(pl *plan, ref, got []string, d int) string {
+	// the d-th token of the reference belongs to some item: find the definition token count
+	want := "(end)"
+	if d < len(ref) {
+		want = ref[d]
+	}
+	for _, it := range pl.flat {
+		if !it.scaffold && it.num >= 0 && it.ident() == want {
+			return "first difference at unnamed " + it.describeKind()
+		}
+	}
+	// otherwise a token appeared where none is due: name the item kinds that take no number
+	kinds := map[string]bool{}
+	for _, it := range pl.flat {
+		if !it.scaffold && it.num < 0 && it.name == "" && it.kind != "block" && it.kind != "param" {
+			kinds[it.describeKind()] = true
+		}
+	}
+	var ks []string
+	for k := range kinds {
+		ks = append(ks, k)
+	}
+	sort.Strings(ks)
+	return "shifted numbering, shape contains " + strings.Join(ks, "+")
+}
+
+// reassign calls the public AssignIDs again: no error, nothing changes.
+func (c *checker) reassign(pl *plan, f *ir.Func, obj objects, stage string, v vector) {
+	before := pl.ids(obj)
+	err := f.AssignIDs()
+	after := pl.ids(obj)
+	if err != nil {
+		c.rep.Fail(mbt.Failure{Signature: "C08|" + stage + "+print+AssignIDs|error|numbering a numbered function again fails",
+			What: fmt.Sprintf("AssignIDs on the printed %s: %v", pl.describe, err), Case: caseOf([]vector{v}, stage)})
+		return
+	}
+	for i := range before {
+		if before[i] != after[i] {
+			c.rep.Fail(mbt.Failure{Signature: "C08|" + stage + "+print+AssignIDs|changed|numbering a numbered function again changes ids",
+				What: fmt.Sprintf("AssignIDs on the printed %s changes ids %v -> %v", pl.describe, before, after), Case: caseOf([]vector{v}, stage)})
+			return
+		}
+	}
+}
+
+type hookEvent struct {
+	obj      interface{}
+	old, new int64
+}
+
+func (c *checker) hookStart() *[]hookEvent {
+	evs := &[]hookEvent{}
+	ir.VerifHook = func(ev string, obj interface{}, old, new int64) {
+		if ev == "setid" {
+			*evs = append(*evs, hookEvent{obj, old, new})
+		}
+	}
+	return evs
+}
+
+func (c *checker) hookStop(evs *[]hookEvent) []hookEvent {
+	ir.VerifHook = nil
+	return *evs
+}
+
+// recordFunc turns the events that concern one function into a trace record.
+func (c *checker) recordFunc(pl *plan, obj objects, before []int, evs []hookEvent, desc string) {
+	pos := map[interface{}]int{}
+	for _, it := range pl.flat {
+		if o := obj[it]; o != nil {
+			pos[o] = it.pos
+		}
+	}
+	r := record{ID: len(c.records) + 1, What: "func", desc: desc, Events: []recEvent{}}
+	for k, it := range pl.flat {
+		b := 0
+		if before != nil {
+			b = before[k]
+		}
+		r.Items = append(r.Items, recItem{Name: it.name, Res: it.res, Before: b})
+	}
+	for _, e := range evs {
+		if p, ok := pos[e.obj]; ok {
+			r.Events = append(r.Events, recEvent{Pos: p, Old: int(e.old), New: int(e.new)})
+		}
+	}
+	r.After = pl.ids(obj)
+	c.records = append(c.records, r)
+}
+
+func caseOf(vs []vector, stage string) map[string]interface{} {
+	if len(vs) > 3 {
+		vs = vs[:3]
+	}
+	return map[string]interface{}{"stage": stage, "vectors": vs}
+}
+
+func caseOfText(vs []vector, stage, text string) map[string]interface{} {
+	m := caseOf(vs, stage)
+	if len(text) < 4000 {
+		m["text"] = text
+	}
+	return m
+}
+
+// ===================================================================================
+// module shapes
+// ===================================================================================
+
+type modObj interface {
+	ID() int64
+	SetName(string)
+	Ident() string
+}
+
+// modNames gives every definition its concrete name: named definitions are
+// called after their kind and their ordinal among the definitions of that kind
+// (so that the printed text depends on the group contents only).
+func modNames(src []srcEnt) []string {
+	ord := map[string]int{}
+	out := make([]string, len(src))
+	for i, e := range src {
+		ord[e.Kind]++
+		if e.Name != "" {
+			out[i] = e.Kind[:2] + strconv.Itoa(ord[e.Kind])
+		}
+	}
+	return out
+}
+
+func defLine(kind, ident string) string {
+	switch kind {
+	case "global":
+		return ident + " = global i32 0\n"
+	case "alias":
+		return ident + " = alias i32, i32* @h.base\n"
+	case "ifunc":
+		return ident + " = ifunc void (), void ()* ()* @h.resolver\n"
+	case "func":
+		return "define void " + ident + "() {\n\tret void\n}\n"
+	}
+	mbt.Infra("unknown definition kind %q", kind)
+	return ""
+}
+
+func useLine(i int, kind, ident string) string {
+	if kind == "global" || kind == "alias" {
+		return fmt.Sprintf("@u%d = global i32* %s\n", i+1, ident)
+	}
+	return fmt.Sprintf("@u%d = global void ()* %s\n", i+1, ident)
+}
+
+const modPrelude = "@h.base = global i32 0\ndefine void ()* @h.resolver() {\n\tret void ()* null\n}\n"
+
+// modText renders the definitions in the given order with the given numbers, then the uses.
+func modText(v vector, order []int, num []int) string {
+	names := modNames(v.Src)
+	var sb strings.Builder
+	sb.WriteString(modPrelude)
+	ident := func(i int) string {
+		if names[i] != "" {
+			return "@" + names[i]
+		}
+		return "@" + strconv.Itoa(num[i])
+	}
+	for _, i := range order {
+		sb.WriteString(defLine(v.Src[i].Kind, ident(i)))
+	}
+	for i := range v.Src {
+		sb.WriteString(useLine(i, v.Src[i].Kind, ident(i)))
+	}
+	return sb.String()
+}
+
+func textualOrder(v vector) []int {
+	o := make([]int, len(v.Src))
+	for i := range o {
+		o[i] = i
+	}
+	return o
+}
+
+func groupOrder(v vector) []int {
+	var o []int
+	for _, k := range []string{"global", "alias", "ifunc", "func"} {
+		for i, e := range v.Src {
+			if e.Kind == k {
+				o = append(o, i)
+			}
+		}
+	}
+	return o
+}
+
+// modDefTokens lists the @-definitions of printed text (helpers and use globals skipped), in order.
+func modDefTokens(text string) []string {
+	var out []string
+	for _, t := range irhist.DefIdents(text) {
+		if strings.HasPrefix(t, "@") && !strings.HasPrefix(t, "@h.") && !strings.HasPrefix(t, "@u") {
+			out = append(out, t)
+		}
+	}
+	return out
+}
+
+// modUseTokens lists the initialisers of the use globals u1..un.
+var reUse = regexp.MustCompile(`(?m)^@u(\d+) = global [^@\n]*(@[\w.]+)`)
+
+func modUseTokens(text string, n int) []string {
+	out := make([]string, n)
+	for _, m := range reUse.FindAllStringSubmatch(text, -1) {
+		if k, _ := strconv.Atoi(m[1]); k >= 1 && k <= n {
+			out[k-1] = m[2]
+		}
+	}
+	return out
+}
+
+func (c *checker) modVectors(vs []vector) {
+	rep := c.rep
+	// all texts LLVM has to see: the source in textual order, and the reference output in group order
+	var texts []string
+	for _, v := range vs {
+		texts = append(texts, modText(v, textualOrder(v), v.Textual), modText(v, groupOrder(v), v.Printed))
+	}
+	c.prefetch(texts)
+	canonBudget := 150
+	if c.tier == "thorough" {
+		canonBudget = len(vs)
+	}
+	for vi, v := range vs {
+		c.vectors++
+		rep.Count(v.key(), hasUnnamedAndNamedOrVoid(v))
+		src := modText(v, textualOrder(v), v.Textual)
+		ref := modText(v, groupOrder(v), v.Printed)
+		okSrc, d1 := c.accept(src)
+		okRef, d2 := c.accept(ref)
+		if !okSrc || !okRef {
+			c.discards++
+			rep.Note("spec/LLVM disagreement (vector discarded): llvm-as rejects the rendering of %s: %s %s", v.key(), diagClass(d1), diagClass(d2))
+			continue
+		}
+		names := modNames(v.Src)
+		refDefs := modDefTokens(ref)
+		refUses := modUseTokens(ref, len(v.Src))
+		// LLVM's own printed numbering, for a seeded sample in quick and for all in thorough
+		if canonBudget > 0 && (c.tier == "thorough" || c.rng.Intn(len(vs)) < 200) {
+			canonBudget--
+			if canon, ok, _ := llvmoracle.Canon(src); ok {
+				got := modDefTokens(canon)
+				want := append([]string{}, refDefs...)
+				if d := firstDiff(stripQuotes(got), want); d >= 0 {
+					c.discards++
+					rep.Note("spec/LLVM disagreement (vector discarded): llvm-dis prints %v for %s, the specification says %v", got, v.key(), want)
+					continue
+				}
+			}
+		}
+
+		// (a) build through the API in textual order, print
+		m := ir.NewModule()
+		base := ir.NewGlobalDef("h.base", constant.NewInt(types.I32, 0))
+		resolver := ir.NewFunc("h.resolver", types.NewPointer(types.NewFunc(types.Void)))
+		rb := resolver.NewBlock("")
+		rb.NewRet(constant.NewNull(types.NewPointer(types.NewFunc(types.Void))))
+		m.Globals = append(m.Globals, base)
+		m.Funcs = append(m.Funcs, resolver)
+		built := make([]modObj, len(v.Src))
+		for i, e := range v.Src {
+			switch e.Kind {
+			case "global":
+				built[i] = m.NewGlobalDef(names[i], constant.NewInt(types.I32, 0))
+			case "alias":
+				built[i] = m.NewAlias(names[i], base)
+			case "ifunc":
+				built[i] = m.NewIFunc(names[i], resolver)
+			case "func":
+				f := m.NewFunc(names[i], types.Void)
+				f.NewBlock("").NewRet(nil)
+				built[i] = f
+			}
+		}
+		for i := range v.Src {
+			m.NewGlobalDef("u"+strconv.Itoa(i+1), built[i].(constant.Constant))
+		}
+		c.judgeModule(v, m, built, nil, "build", src, refDefs, refUses)
+
+		// (b) parse the text LLVM accepts
+		pm, err := asm.ParseString("mod.ll", src)
+		if err != nil {
+			rep.Fail(mbt.Failure{Signature: "C08|parse|rejected|module: " + irhist.PanicClass(err.Error()),
+				What: fmt.Sprintf("asm.ParseString rejects %s (accepted by llvm-as): %v", v.key(), mbt.Truncate(err.Error(), 200)),
+				Case: caseOfText([]vector{v}, "parse", src)})
+			continue
+		}
+		parsed, uses, err := locateModule(v, pm)
+		if err != nil {
+			rep.Fail(mbt.Failure{Signature: "C08|parse|structure|module", What: fmt.Sprintf("%s: %v", v.key(), err), Case: caseOfText([]vector{v}, "parse", src)})
+			continue
+		}
+		for i := range v.Src {
+			if uses[i] != parsed[i] {
+				rep.Fail(mbt.Failure{Signature: "C08|parse|binding|use of unnamed " + v.Src[i].Kind,
+					What: fmt.Sprintf("%s: the use of definition %d is bound to %v", v.key(), i+1, uses[i]), Case: caseOfText([]vector{v}, "parse", src)})
+				break
+			}
+			if v.Textual[i] >= 0 && int(parsed[i].ID()) != v.Textual[i] {
+				rep.Fail(mbt.Failure{Signature: "C08|parse|numbering|unnamed " + v.Src[i].Kind,
+					What: fmt.Sprintf("%s: definition %d is @%d in the text LLVM accepts, the parser numbers it @%d", v.key(), i+1, v.Textual[i], parsed[i].ID()),
+					Case: caseOfText([]vector{v}, "parse", src)})
+				break
+			}
+		}
+		before := make([]int, len(parsed))
+		for i, o := range parsed {
+			before[i] = int(o.ID())
+		}
+		c.judgeModule(v, pm, parsed, before, "parse", src, refDefs, refUses)
+		if vi == len(vs)/3 {
+			rep.Sample(map[string]interface{}{"kind": "mod", "shape": v.key(), "textual": v.Textual, "printed": v.Printed, "source_text": src})
+		}
+	}
+}
+
+func stripQuotes(s []string) []string {
+	out := make([]string, len(s))
+	for i, x := range s {
+		out[i] = strings.ReplaceAll(x, `"`, "")
+	}
+	return out
+}
+
+// locateModule finds the definitions of v in the parsed module (k-th of its kind
+// in textual order = k-th entry of the group) and the values the use globals point to.
+func locateModule(v vector, m *ir.Module) (defs []modObj, uses []interface{}, err error) {
+	var gs, as, is, fs []modObj
+	for _, g := range m.Globals {
+		if !strings.HasPrefix(g.GlobalName, "h.") && !strings.HasPrefix(g.GlobalName, "u") {
+			gs = append(gs, g)
+		}
+	}
+	for _, a := range m.Aliases {
+		as = append(as, a)
+	}
+	for _, i := range m.IFuncs {
+		is = append(is, i)
+	}
+	for _, f := range m.Funcs {
+		if !strings.HasPrefix(f.GlobalName, "h.") {
+			fs = append(fs, f)
+		}
+	}
+	take := func(s *[]modObj) (modObj, error) {
+		if len(*s) == 0 {
+			return nil, fmt.Errorf("parsed module lacks a definition")
+		}
+		o := (*s)[0]
+		*s = (*s)[1:]
+		return o, nil
+	}
+	defs = make([]modObj, len(v.Src))
+	for i, e := range v.Src {
+		var o modObj
+		switch e.Kind {
+		case "global":
+			o, err = take(&gs)
+		case "alias":
+			o, err = take(&as)
+		case "ifunc":
+			o, err = take(&is)
+		case "func":
+			o, err = take(&fs)
+		}
+		if err != nil {
+			return nil, nil, err
+		}
+		defs[i] = o
+	}
+	if len(gs)+len(as)+len(is)+len(fs) != 0 {
+		return nil, nil, fmt.Errorf("parsed module has extra definitions")
+	}
+	uses = make([]interface{}, len(v.Src))
+	for _, g := range m.Globals {
+		if strings.HasPrefix(g.GlobalName, "u") {
+			if k, e := strconv.Atoi(g.GlobalName[1:]); e == nil && k >= 1 && k <= len(uses) {
+				uses[k-1] = g.Init
+			}
+		}
+	}
+	return defs, uses, nil
+}
+
+// judgeModule prints m and compares with LLVM's numbering; then numbers again.
+func (c *checker) judgeModule(v vector, m *ir.Module, defs []modObj, before []int, stage, src string, refDefs, refUses []string) {
+	rep := c.rep
+	events := c.hookStart()
+	var out string
+	msg, panicked := mbt.Guard(func() { out = m.String() })
+	evs := c.hookStop(events)
+	cs := caseOfText([]vector{v}, stage, src)
+	if panicked {
+		sig := "C08|" + stage + "+print|panic|" + irhist.PanicClass(msg)
+		if stage == "parse" && irhist.PanicClass(msg) == "invalid global ID" && outOfGroupOrder(v) {
+			sig = sigParsePrint
+		}
+		rep.Fail(mbt.Failure{Signature: sig, What: fmt.Sprintf("%s %s, String() panics: %s", stage, v.key(), mbt.Truncate(msg, 160)), Case: cs})
+		return
+	}
+	gotDefs := modDefTokens(out)
+	if d := firstDiff(gotDefs, refDefs); d >= 0 {
+		kind := "?"
+		if d < len(refDefs) {
+			for i := range v.Src {
+				if v.Src[i].Name == "" && "@"+strconv.Itoa(v.Printed[i]) == refDefs[d] {
+					kind = v.Src[i].Kind
+				}
+			}
+		}
+		rep.Fail(mbt.Failure{Signature: "C08|" + stage + "+print|numbering|first difference at unnamed " + kind,
+			What: fmt.Sprintf("%s %s prints definitions %v, LLVM numbering is %v", stage, v.key(), gotDefs, refDefs), Case: cs})
+		return
+	}
+	gotUses := modUseTokens(out, len(v.Src))
+	if d := firstDiff(gotUses, refUses); d >= 0 {
+		rep.Fail(mbt.Failure{Signature: "C08|" + stage + "+print|numbering|use of unnamed " + v.Src[d].Kind,
+			What: fmt.Sprintf("%s %s prints uses %v, LLVM numbering is %v", stage, v.key(), gotUses, refUses), Case: cs})
+		return
+	}
+	if ok, diag := c.accept(out); !ok {
+		rep.Fail(mbt.Failure{Signature: "C08|" + stage + "+print|llvm-as rejects|" + diagClass(diag),
+			What: fmt.Sprintf("llvm-as rejects the text printed for %s %s: %s", stage, v.key(), diagClass(diag)), Case: cs})
+		return
+	}
+	if c.wantRecord() {
+		c.recordModule(v, m, before, evs, stage+" "+v.key())
+	}
+	// numbering again changes nothing
+	ids := func() []int64 {
+		var s []int64
+		for _, o := range defs {
+			s = append(s, o.ID())
+		}
+		return s
+	}
+	b := ids()
+	if err := m.AssignGlobalIDs(); err != nil {
+		rep.Fail(mbt.Failure{Signature: "C08|" + stage + "+print+AssignGlobalIDs|error|numbering a numbered module again fails",
+			What: fmt.Sprintf("%s %s: %v", stage, v.key(), err), Case: cs})
+		return
+	}
+	a := ids()
+	for i := range a {
+		if a[i] != b[i] {
+			rep.Fail(mbt.Failure{Signature: "C08|" + stage + "+print+AssignGlobalIDs|changed|numbering a numbered module again changes ids",
+				What: fmt.Sprintf("%s %s: %v -> %v", stage, v.key(), b, a), Case: cs})
+			return
+		}
+	}
+}
+
+func outOfGroupOrder(v vector) bool {
+	for i := range v.Src {
+		if v.Textual[i] != v.Printed[i] {
+			return true
+		}
+	}
+	return false
+}
+
+// recordModule: items are all entries of the four groups in walk order.
+func (c *checker) recordModule(v vector, m *ir.Module, before []int, evs []hookEvent, desc string) {
+	type ent interface {
+		ID() int64
+		IsUnnamed() bool
+	}
+	var walk []ent
+	for _, g := range m.Globals {
+		walk = append(walk, g)
+	}
+	for _, a := range m.Aliases {
+		walk = append(walk, a)
+	}
+	for _, i := range m.IFuncs {
+		walk = append(walk, i)
+	}
+	for _, f := range m.Funcs {
+		walk = append(walk, f)
+	}
+	pos := map[interface{}]int{}
+	r := record{ID: len(c.records) + 1, What: "module", desc: desc, Events: []recEvent{}}
+	for i, o := range walk {
+		pos[o] = i + 1
+		name := "n"
+		if o.IsUnnamed() {
+			name = ""
+		}
+		r.Items = append(r.Items, recItem{Name: name, Res: "value"})
+		r.After = append(r.After, int(o.ID()))
+	}
+	// cached ids before the print: known for the definitions of the vector (all others are named)
+	if before != nil {
+		k := 0
+		order := groupOrder(v)
+		for i, o := range walk {
+			if o.IsUnnamed() && k < len(order) {
+				// the unnamed entries of the walk are exactly the unnamed definitions in group order
+				for k < len(order) && v.Src[order[k]].Name != "" {
+					k++
+				}
+				if k < len(order) {
+					r.Items[i].Before = before[order[k]]
+					k++
+				}
+			}
+		}
+	}
+	for i := range r.Items {
+		if r.Items[i].Name != "" {
+			r.Items[i].Before = r.After[i]
+		}
+	}
+	for _, e := range evs {
+		if p, ok := pos[e.obj]; ok {
+			r.Events = append(r.Events, recEvent{Pos: p, Old: int(e.old), New: int(e.new)})
+		}
+	}
+	c.records = append(c.records, r)
+}
+
+// ===================================================================================
+// trace validation (T)
+// ===================================================================================
+
+var reBadRec = regexp.MustCompile(`<<"BADREC", "([^"]+)", (\d+)>>`)
+
+func (c *checker) judgeRecords() {
+	rep := c.rep
+	if len(c.records) == 0 {
+		return
+	}
+	t := mbt.MustTLC(mbt.TLCOpts{Spec: "NumberingTrace", Cfg: "NumberingTrace.cfg", Workers: 4, Continue: true,
+		Data: map[string][]byte{"numbering_rec.ndjson": mbt.NDJSONBytes(c.records)}, Timeout: 20 * time.Minute})
+	defer t.Cleanup()
+	rep.AddTLC(t)
+	if t.Distinct != int64(len(c.records))+1 {
+		mbt.Infra("NumberingTrace consumed %d of %d records", t.Distinct-1, len(c.records))
+	}
+	rep.TracesValidated += len(c.records)
+	for _, v := range t.Violated {
+		if v != "RowOK" {
+			mbt.Infra("NumberingTrace: unexpected violation %s", v)
+		}
+	}
+	for _, m := range reBadRec.FindAllStringSubmatch(t.Output, -1) {
+		id, _ := strconv.Atoi(m[2])
+		r := c.records[id-1]
+		rep.Fail(mbt.Failure{Signature: "C08|setid trace|" + m[1] + "|" + r.What,
+			What: fmt.Sprintf("recorded ID assignment of %s breaks law %q: before/items %v events %v after %v", r.desc, m[1], r.Items, r.Events, r.After),
+			Case: map[string]interface{}{"stage": "trace", "record": r}})
+	}
+	rep.Extra["setid_records_judged_by_tlc"] = len(c.records)
+}
+
+// ===================================================================================
+// histories that start from a parsed module (IRState)
+// ===================================================================================
+
+func (c *checker) histories(label string, consts map[string]string, withObservers bool) {
+	rep := c.rep
+	consts["ValidateOnPrint"] = "FALSE"
+	t := mbt.MustTLC(mbt.TLCOpts{Spec: "IRState", Cfg: "IRStateEmit.cfg", Consts: consts, Workers: 1, Timeout: 25 * time.Minute})
+	defer t.Cleanup()
+	if len(t.Violated) > 0 {
+		mbt.Infra("IRState (%s) with ValidateOnPrint = FALSE violates %v: specification error", label, t.Violated)
+	}
+	rep.AddTLC(t)
+	trs, err := mbt.ReadNDJSON[irhist.Transition](filepath.Join(t.Dir, "transitions.ndjson"))
+	if err != nil {
+		mbt.Infra("transitions of %s: %v", label, err)
+	}
+	n := 0
+	for _, tr := range trs {
+		// histories without observer calls: what is compared is build/parse/edit + one final print
+		hasObs := false
+		for _, cl := range tr.Hist {
+			if irhist.IsObserver(cl.Op) {
+				hasObs = true
+			}
+		}
+		if hasObs != withObservers && !withObservers {
+			continue
+		}
+		n++
+		c.judgeHistory(tr, label)
+	}
+	rep.TracesValidated += n
+	rep.Extra["histories_"+label] = n
+}
+
+func (c *checker) judgeHistory(tr irhist.Transition, label string) {
+	rep := c.rep
+	key := irhist.Key(tr.Hist)
+	parsed := len(tr.Hist) > 0 && tr.Hist[0].Op == "ParseText"
+	edits := 0
+	for _, cl := range tr.Hist[0:] {
+		if !irhist.IsObserver(cl.Op) && cl.Op != "ParseText" {
+			edits++
+		}
+	}
+	rep.Count("hist:"+key, edits > 0)
+	r := irhist.Replay(tr.Hist, false)
+	cs := map[string]interface{}{"stage": "history", "hist": tr.Hist, "want": tr.Want}
+	switch {
+	case r.EarlyMsg != "":
+		rep.Fail(mbt.Failure{Signature: "C08|history|mutator panics|" + irhist.PanicClass(r.EarlyMsg), What: key + ": " + r.EarlyMsg, Case: cs})
+	case r.Panicked && tr.Want.Ok:
+		cl := irhist.PanicClass(r.Msg)
+		sig := "C08|history|panic|" + cl
+		switch {
+		case parsed && edits == 0 && cl == "invalid global ID":
+			sig = sigParsePrint
+		case parsed && cl == "invalid local ID":
+			sig = sigParseEditLoc
+		case parsed && cl == "invalid global ID":
+			sig = sigParseEditGlob
+		}
+		rep.Fail(mbt.Failure{Signature: sig, What: fmt.Sprintf("history %s: String() panics (%s); required: %s", key, mbt.Truncate(r.Msg, 140), irhist.FmtToks(tr.Want.Text)), Case: cs})
+	case !r.Panicked && !tr.Want.Ok:
+		rep.Fail(mbt.Failure{Signature: "C08|history|prints where a panic is required|" + tr.Want.Why, What: key, Case: cs})
+	case !r.Panicked:
+		got := irhist.DefTokens(r.Text)
+		if !irhist.SameToks(got, tr.Want.Text) {
+			rep.Fail(mbt.Failure{Signature: "C08|history|numbering|printed identifiers differ from LLVM numbering",
+				What: fmt.Sprintf("history %s prints %s; LLVM numbering: %s", key, irhist.FmtToks(got), irhist.FmtToks(tr.Want.Text)), Case: cs})
+		}
+	}
+}
+
+// ===================================================================================
+
+func readVectors(dir string) []vector {
+	vs, err := mbt.ReadNDJSON[vector](filepath.Join(dir, "vectors.ndjson"))
+	if err != nil {
+		mbt.Infra("vectors: %v", err)
+	}
+	return vs
+}
+
 // Run is the C08 check.
-func Run(tier, replay string) { mbt.Infra("check C08 is not built yet") }
+func Run(tier, replay string) {
+	rep := mbt.NewReport("C08", tier, "model_checking")
+	rep.Rule = "shapes that mix unnamed values with named ones or with instructions that take no number (functions), or whose textual numbering differs from the print-group numbering (modules); histories with at least one edit after parsing"
+	llvmoracle.Require()
+	c := &checker{rep: rep, tier: tier, rng: rand.New(rand.NewSource(mbt.Seed())), accepted: map[string]string{}, recEvery: 3}
+	if tier == "thorough" {
+		c.recEvery = 8
+	}
+	if replay != "" {
+		c.recEvery = 1
+		c.runReplay(replay)
+		c.judgeRecords()
+		rep.Finish()
+	}
+
+	// (S) design level: the laws of Numbering over all shapes of the model
+	chk := map[string]string{"MaxBlocks": "2", "MaxInsts": "1"}
+	t := mbt.MustTLC(mbt.TLCOpts{Spec: "NumberingGen", Cfg: "NumberingGen.cfg", Consts: chk, Workers: 8})
+	if len(t.Violated) > 0 {
+		mbt.Infra("Numbering with ValidateOnPrint = FALSE violates %v: specification error", t.Violated)
+	}
+	rep.AddTLC(t)
+	rep.Extra["tlc_states_design"] = t.Distinct
+	t.Cleanup()
+	// the code as implemented, in the model: TLC must find the C08 counterexample
+	t = mbt.MustTLC(mbt.TLCOpts{Spec: "NumberingGen", Cfg: "NumberingGen.cfg", Workers: 4,
+		Consts: map[string]string{"ValidateOnPrint": "TRUE", "Kinds": `{"mod"}`}})
+	if len(t.Violated) != 1 || t.Violated[0] != "ModParsedTotal" {
+		mbt.Infra("Numbering as implemented (ValidateOnPrint = TRUE) should violate exactly ModParsedTotal, TLC reports %v", t.Violated)
+	}
+	rep.CheckerCmds = append(rep.CheckerCmds, t.Cmd+" (as implemented, ModParsedTotal violated as expected)")
+	rep.Extra["as_implemented_model"] = "ModParsedTotal violated: " + firstCounterexample(t.Output)
+	t.Cleanup()
+
+	// (G) vectors
+	var vs []vector
+	emit := func(label string, consts map[string]string, simulate string, depth int) {
+		o := mbt.TLCOpts{Spec: "NumberingGen", Cfg: "NumberingEmit.cfg", Consts: consts, Workers: 1, Timeout: 25 * time.Minute,
+			Simulate: simulate, Depth: depth}
+		t := mbt.MustTLC(o)
+		if len(t.Violated) > 0 {
+			mbt.Infra("NumberingGen (%s) violates %v: specification error", label, t.Violated)
+		}
+		got := readVectors(t.Dir)
+		rep.AddTLC(t)
+		rep.Extra["vectors_"+label] = len(got)
+		rep.Extra["tlc_wall_s_"+label] = t.Wall.Seconds()
+		vs = append(vs, got...)
+		t.Cleanup()
+	}
+	if tier == "quick" {
+		// all module shapes <= 4; all one-block functions with <= 2 instructions; random deeper ones
+		emit("exhaustive", map[string]string{"MaxBlocks": "1", "MaxInsts": "2"}, "", 0)
+		emit("random", map[string]string{"Kinds": `{"func"}`, "MaxBlocks": "3", "MaxInsts": "2"}, "num=700", 5)
+	} else {
+		emit("exhaustive", map[string]string{"MaxBlocks": "2", "MaxInsts": "1"}, "", 0)
+		emit("exhaustive1", map[string]string{"Kinds": `{"func"}`, "MaxBlocks": "1", "MaxInsts": "2"}, "", 0)
+		emit("random", map[string]string{"Kinds": `{"func"}`, "MaxBlocks": "3", "MaxInsts": "2"}, "num=8000", 5)
+	}
+	// de-duplicate (simulation repeats shapes)
+	seen := map[string]bool{}
+	var fv, mv []vector
+	for _, v := range vs {
+		k := v.key()
+		if seen[k] {
+			continue
+		}
+		seen[k] = true
+		if v.Kind == "mod" {
+			mv = append(mv, v)
+		} else {
+			fv = append(fv, v)
+		}
+	}
+	c.modVectors(mv)
+	c.funcVectors(fv)
+	rep.Extra["module_shapes"] = len(mv)
+	rep.Extra["function_shapes"] = len(fv)
+
+	// histories from a parsed module, then edited (IRState)
+	parse := map[string]string{"MaxSrc": "2", "MaxCalls": "3", "Observers": "{}"}
+	if tier == "thorough" {
+		parse["MaxCalls"] = "4"
+	}
+	c.histories("parse_edit_print", parse, false)
+	if tier == "thorough" {
+		c.histories("build_edit_print", map[string]string{"MaxSrc": "0", "MaxCalls": "6", "Observers": "{}"}, false)
+	}
+
+	// (T)
+	c.judgeRecords()
+
+	rep.Extra["llvm_as_runs"] = c.llvmRuns
+	rep.Extra["spec_llvm_disagreements_discarded"] = c.discards
+	if c.vectors > 0 && c.discards*50 > c.vectors {
+		mbt.Infra("%d of %d vectors discarded because llvm-as and the specification disagree (> 2%%)", c.discards, c.vectors)
+	}
+	rep.Exhaustive = false
+	rep.Explanation = "exhaustive: all 4680 module shapes (sequences <= 4 over {named, unnamed} x {global, alias, ifunc, func}) and the function family named in vectors_exhaustive*; the three-block family is sampled by TLC simulation (seeded)"
+	rep.Assumptions = []string{
+		"llvm-as 14 decides which numbering is valid; the explicit rendering of every vector carries the specification's numbers, so an error of the specification is a discarded vector, not a verdict",
+		"value instructions are add / non-void call, void instructions call void, result-less ones store / fence; successors and named scaffolding blocks are added by the harness so that the LLVM verifier accepts the function",
+		"module-level numbering exists in explicit form only (LLVM 14 has no implicit syntax for unnamed globals or functions)",
+	}
+	rep.Finish()
+}
+
+var reCex = regexp.MustCompile(`src = (<<.*>>)`)
+
+func firstCounterexample(out string) string {
+	ms := reCex.FindAllStringSubmatch(out, -1)
+	if len(ms) == 0 {
+		return "?"
+	}
+	return ms[len(ms)-1][1]
+}
+
+func (c *checker) runReplay(path string) {
+	type rf struct {
+		Failures []struct {
+			Case struct {
+				Stage   string        `json:"stage"`
+				Vectors []vector      `json:"vectors"`
+				Hist    []irhist.Call `json:"hist"`
+				Want    irhist.Out    `json:"want"`
+				Record  *record       `json:"record"`
+			} `json:"case"`
+		} `json:"failures"`
+	}
+	var one rf
+	if err := mbt.ReadJSON(path, &one); err != nil {
+		mbt.Infra("replay %s: %v", path, err)
+	}
+	seen := map[string]bool{}
+	var fv, mv []vector
+	for _, f := range one.Failures {
+		for _, v := range f.Case.Vectors {
+			if seen[v.key()] {
+				continue
+			}
+			seen[v.key()] = true
+			if v.Kind == "mod" {
+				mv = append(mv, v)
+			} else {
+				fv = append(fv, v)
+			}
+		}
+		if len(f.Case.Hist) > 0 {
+			c.judgeHistory(irhist.Transition{Hist: f.Case.Hist, Want: f.Case.Want}, "replay")
+			c.rep.TracesValidated++
+		}
+		if f.Case.Record != nil {
+			r := *f.Case.Record
+			r.ID = len(c.records) + 1
+			r.desc = "replayed record"
+			c.records = append(c.records, r)
+		}
+	}
+	c.modVectors(mv)
+	c.funcVectors(fv)
+}
